@@ -963,7 +963,9 @@ class SingleScpTask(Task):
                 return (status, None, None)
             dk = I.choose(len(REPLY_KINDS), "reply dataset kind")
             g["reply_kind"] = dk
-            ds = [None, DatasetV([("PatientName", "x"), ("AffectedSOPInstanceUID", "1.2.3")]), DatasetV([("PatientID", "y")]), DatasetV([]),
+            uid_ = Env("the-reply's-AffectedSOPInstanceUID", cls="str")      # any text the handler put there, not a particular UID
+            uid_.truth = True
+            ds = [None, DatasetV([("PatientName", "x"), ("AffectedSOPInstanceUID", uid_)]), DatasetV([("PatientID", "y")]), DatasetV([]),
                   "not a dataset"][dk]
             g["reply"] = ds
             return (status, ds)
